@@ -10,7 +10,7 @@ open RpcVerif
 /-- `[k]` if `k` is an asynchronous call of `s`, `[]` otherwise -/
 def hd (s : State) (k : Nat) : List Nat := if isAsync s k then [k] else []
 
-theorem updCall_calls (s : State) (k : Nat) (f : Call → Call) (j : Nat) :
+private theorem updCall_calls (s : State) (k : Nat) (f : Call → Call) (j : Nat) :
     (updCall s k f).calls j = if j = k then (s.calls k).map f else s.calls j := rfl
 
 theorem hand_eq (s : State) (k : Nat) : hand s k = { s with handed := s.handed ++ hd s k } := by
@@ -1137,12 +1137,12 @@ theorem taskInv_mono {s s' : State} (h : TaskInv s) (hfm : ∀ k f, frameOk s k 
     · exact hfed f (t3 f hh)
     · exact hh
 
-theorem signal_finQ (s : State) (k : Nat) : (signal s k).finQ = s.finQ := by rw [signal_eq]
+private theorem signal_finQ (s : State) (k : Nat) : (signal s k).finQ = s.finQ := by rw [signal_eq]
 
 theorem finishCall_finQ (s : State) (k : Nat) (f : Frame) : (finishCall s k f).finQ = s.finQ := by
   rw [finishCall_eq, signal_finQ]; rfl
 
-theorem complete_finQ (s : State) (k : Nat) :
+private theorem complete_finQ (s : State) (k : Nat) :
     (complete s k).finQ = if s.cfg.pipe then s.finQ ++ [.done k] else s.finQ := by
   cases h : s.cfg.pipe
   · rw [complete_nopipe h]; simp
@@ -1180,7 +1180,7 @@ theorem taskInv_finishCall {s : State} (h : TaskInv s) (k : Nat) (f : Frame) : T
 theorem taskInv_sweepAll {s : State} (h : TaskInv s) (e : Err) : TaskInv (sweepAll s e) :=
   foldl_failCall_inv TaskInv e _ (fun _ p _ h => taskInv_failCall h p.2 e) _ h
 
-theorem lookup_mem {p : List (Nat × Nat)} {q k : Nat} (h : lookup p q = some k) : (q, k) ∈ p := by
+private theorem lookup_mem {p : List (Nat × Nat)} {q k : Nat} (h : lookup p q = some k) : (q, k) ∈ p := by
   unfold lookup at h
   cases hf : p.find? (·.1 == q) with
   | none => simp [hf] at h
@@ -1637,7 +1637,7 @@ theorem ff_readFrame {s : State} (h : FF s) (f : Frame) : FF (readFrame s f).1 :
     · exact ff_nopipe h hp (fun _ ht => ht) (fun _ hj => hj)
     · exact ff_nopipe h hp (fun _ ht => ht) (fun _ hj => hj)
 
-theorem mem_insertBySeq {x y : Nat × Nat} {l : List (Nat × Nat)} (h : y ∈ insertBySeq x l) : y = x ∨ y ∈ l := by
+private theorem mem_insertBySeq {x y : Nat × Nat} {l : List (Nat × Nat)} (h : y ∈ insertBySeq x l) : y = x ∨ y ∈ l := by
   induction l with
   | nil => simp [insertBySeq] at h; exact .inl h
   | cons z zs ih =>
@@ -1651,7 +1651,7 @@ theorem mem_insertBySeq {x y : Nat × Nat} {l : List (Nat × Nat)} (h : y ∈ in
         · exact .inl h
         · exact .inr (.inr h)
 
-theorem mem_sortBySeq {y : Nat × Nat} {l : List (Nat × Nat)} (h : y ∈ sortBySeq l) : y ∈ l := by
+private theorem mem_sortBySeq {y : Nat × Nat} {l : List (Nat × Nat)} (h : y ∈ sortBySeq l) : y ∈ l := by
   induction l with
   | nil => simp [sortBySeq] at h
   | cons z zs ih =>
